@@ -43,6 +43,23 @@ pub fn kind_supported(kind: Kind) -> bool {
     }
 }
 
+pub fn last_panic() -> String {
+    LAST_PANIC.with(|p| p.borrow_mut().take()).unwrap_or_else(|| "<no message>".into())
+}
+
+/// machine that may be moved to another (simulated) thread
+#[cfg(not(feature = "pointer"))]
+pub fn make_machine_send(cfg: &Config) -> Box<dyn Machine + Send> {
+    match cfg.kind {
+        Kind::Bdd => Box::new(crate::kinds::bdd::Mach::new(cfg)),
+        Kind::Bcdd => Box::new(crate::kinds::bcdd::Mach::new(cfg)),
+        Kind::Zbdd => Box::new(crate::kinds::zbdd::Mach::new(cfg)),
+        Kind::Tdd => Box::new(crate::kinds::tdd::Mach::new(cfg)),
+        Kind::MtbddI => Box::new(crate::kinds::mtbdd_i::Mach::new(cfg)),
+        Kind::MtbddF => Box::new(crate::kinds::mtbdd_f::Mach::new(cfg)),
+    }
+}
+
 fn make_machine(cfg: &Config) -> Box<dyn Machine> {
     match cfg.kind {
         Kind::Bdd => Box::new(crate::kinds::bdd::Mach::new(cfg)),
